@@ -77,6 +77,9 @@ def run(ctx):
                 ctx.fail("operator raised on transversal operands", desc, got=repr(ex)); continue
             ctx.case("pair-result", (repr(da), repr(db), op), nontrivial=impl.kind(R) not in ("Empty", "Whole"))
             check_result(ctx, R, desc)
+            for tokS, nameS in (("E", "Empty"), ("W", "Whole")):
+                if drv.ask(f"regioncheck {op} {shapes.enc_desc(da)} {shapes.enc_desc(db)} {tokS}") == "ok":
+                    ctx.check(impl.kind(R) == nameS, "geometrically empty/whole result is not the singleton", desc, nameS, impl.kind(R))
         N = ~A
         ctx.case("complement-kind", (repr(da), "inv"))
         ctx.check(impl.kind(N) in INV_KIND[impl.kind(A)], "kind of ~A is not in the documented table", {"A": core.jsonable(da)}, sorted(INV_KIND[impl.kind(A)]), impl.kind(N))
